@@ -841,10 +841,12 @@ func minOfParamAndField(phi *ssa.Phi, fn *ssa.Function, prm, owner, field string
 			if !ok {
 				continue
 			}
-			less := (bo.Op == token.LSS && g.Positive && bo.X == e && sameValue(bo.Y, other)) ||
-				(bo.Op == token.GTR && g.Positive && bo.Y == e && sameValue(bo.X, other)) ||
-				(bo.Op == token.LEQ && g.Positive && bo.X == e && sameValue(bo.Y, other)) ||
-				(bo.Op == token.GEQ && !g.Positive && bo.X == e && sameValue(bo.Y, other))
+			less := (bo.Op == token.LSS && g.Positive && sameValue(bo.X, e) && sameValue(bo.Y, other)) ||
+				(bo.Op == token.GTR && g.Positive && sameValue(bo.Y, e) && sameValue(bo.X, other)) ||
+				(bo.Op == token.LEQ && g.Positive && sameValue(bo.X, e) && sameValue(bo.Y, other)) ||
+				(bo.Op == token.GEQ && g.Positive && sameValue(bo.Y, e) && sameValue(bo.X, other)) ||
+				(bo.Op == token.GEQ && !g.Positive && sameValue(bo.X, e) && sameValue(bo.Y, other)) ||
+				(bo.Op == token.LEQ && !g.Positive && sameValue(bo.Y, e) && sameValue(bo.X, other))
 			if less {
 				return true
 			}
